@@ -107,6 +107,12 @@ fn keepable(t: &Tree, i: usize, target: AutosarVersion) -> bool {
             return false;
         }
     }
+    // an enumeration value that does not exist in the target version cannot be kept either: the element is omitted
+    if let (Some(autosar_data_specification::CharacterDataSpec::Enum { items }), Some(CharacterData::Enum(v))) = (e.element_type().chardata_spec(), e.character_data()) {
+        if !items.iter().any(|(i, m)| *i == v && m & target as u32 != 0) {
+            return false;
+        }
+    }
     true
 }
 
